@@ -14,7 +14,8 @@ RULE = (
     "prisms, pyramids, bipyramids, general hulls; 4-10 vertices) in arbitrary lattice pose, handed to the "
     "constructors in a generated representation: arbitrary vertex order with repeats (for polygons with <= 5 "
     "vertices ALL permutations are tried inside each case), arbitrary face order, arbitrary vertex order inside "
-    "each face, arbitrary face negations; Pyramid over a polygon with an apex on either side. Oracle: exact "
+    "each face, arbitrary face negations; Pyramid over a polygon with an apex on either side, measured again after "
+    "its apex was moved in place. Oracle: exact "
     "perimeter (sum of sqrt of rationals), area |sum p_i x p_{i+1}|/2, volume sum|det|/6, height |n.(a-p)|/|n|; "
     "relative tolerance 1e-9; volume(x) vs x.volume() 1e-9. non-trivial = oblique pose (normal with >= 2 "
     "non-zero components, any face for polyhedra) or permuted order; distinct = distinct (shape, representation)."
